@@ -141,6 +141,28 @@ func init() {
 			it := (*a[0].(*value)).(structure)[0].(nativeBox).v.(*mapIterState)
 			return makeReflectValue(it.et, it.m[it.keys[it.idx]])
 		},
+		"(reflect.Value).CanInt": func(fr *frame, a []value) value {
+			switch reflectKind(rV2T(a[0]).t) {
+			case reflect.Int, reflect.Int8, reflect.Int16, reflect.Int32, reflect.Int64:
+				return true
+			}
+			return false
+		},
+		"(reflect.Value).CanUint": func(fr *frame, a []value) value {
+			switch reflectKind(rV2T(a[0]).t) {
+			case reflect.Uint, reflect.Uint8, reflect.Uint16, reflect.Uint32, reflect.Uint64, reflect.Uintptr:
+				return true
+			}
+			return false
+		},
+		"(reflect.Value).CanFloat": func(fr *frame, a []value) value {
+			k := reflectKind(rV2T(a[0]).t)
+			return k == reflect.Float32 || k == reflect.Float64
+		},
+		"(reflect.Value).CanComplex": func(fr *frame, a []value) value {
+			k := reflectKind(rV2T(a[0]).t)
+			return k == reflect.Complex64 || k == reflect.Complex128
+		},
 		"(reflect.Value).FieldByIndexErr": func(fr *frame, a []value) (res value) {
 			index := make([]int, len(a[1].([]value)))
 			for k, ix := range a[1].([]value) {
